@@ -5,7 +5,10 @@ Monitors around every AutoDecoder.decode_message_payload()/decode_message() call
  (b) logical step budget (vf/mon/steps.py, sys.monitoring): 50 000 + 2 000 x len(input)
      PY_START/JUMP/BRANCH events, >50x above what genuine messages need; exceeding it
      is the verdict 'does not terminate within the polynomial bound';
- (c) tracemalloc peak <= 2 MiB + 20 KiB x len(input) on a sample of the calls.
+ (c) tracemalloc peak <= 2 MiB + 20 KiB x len(input) on a sample of the calls;
+ (d) CPU-time budget of 20 s per call (ITIMER_VIRTUAL: this process's own CPU time, independent of machine load; genuine
+     calls need milliseconds) for loops inside C code such as a backtracking regular expression, which produce no
+     interpreter events.
 Workload: random bytes, truncations and 1..5-octet mutations of genuine messages of
 every list type, date-time octets forced to FF, ASCII fragments with unbalanced
 parentheses, a size sweep - each with every remembered-decoder state.
@@ -28,6 +31,7 @@ RULE = (
 ASSUMPTIONS = [
     "'time bounded by a small polynomial' is decided as the logical step budget 50 000 + 2 000 x len(input) (linear); genuine messages use < 40 steps per octet",
     "memory bound 2 MiB + 20 KiB x len(input) by tracemalloc peak on every 10th call",
+    "CPU-time bound 20 s per call (process CPU time, >400x what the largest genuine message needs under monitoring) decides loops that run inside C code",
 ]
 WATCHDOG_S = {"quick": 900, "thorough": 7200}
 N = {"quick": 330, "thorough": 19000}
@@ -92,7 +96,11 @@ class Harness:
         self.ctx.maximum("max_steps_in_one_call", used)
         if len(data) >= 64:
             self.ctx.maximum("max_steps_per_input_octet(len>=64)", used / len(data))
-        if isinstance(exc, steps.BudgetExceeded) or self.budget.exceeded:
+        self.ctx.maximum("max_cpu_seconds_in_one_call", round(self.budget.max_cpu_s, 3))
+        if isinstance(exc, steps.CpuBudgetExceeded) or self.budget.cpu_exceeded:
+            self.ctx.violation(f"C15:cpu-budget-exceeded:{p1_mon.where_entry(exc) if exc else 'swallowed'}",
+                               f"{api}: more than {steps.CPU_LIMIT_S} s of CPU time for {len(data)} input octets ({data[:50]!r}) - logical steps so far {used}", case)
+        elif isinstance(exc, steps.BudgetExceeded) or self.budget.exceeded:
             self.ctx.violation(f"C15:step-budget-exceeded:{p1_mon.where_entry(exc) if exc else 'swallowed'}",
                                f"{api}: more than {budget_for(len(data))} logical steps for {len(data)} input octets ({data[:40]!r})", case)
         elif exc is not None:
